@@ -55,6 +55,7 @@ SIG_VECT = 'neuron2voxels/vectors-or-alphas/voxel-outside-bounds/IndexError-or-m
 SIG_ORIENT = 'neuron2tangents/orientation/parent-to-child'
 SIG_INF = 'make_dotprops/inf-row/raises'
 SIG_ALPHA_NAN = 'make_dotprops/alpha-NaN/zero-variance-neighbourhood'
+SIG_ISO = 'tree2meshneuron/single-node-fragment/no-geometry-vertex_map-misaligned'
 
 
 # ---------------------------------------------------------------------------------------------
@@ -352,15 +353,27 @@ def case_tan(ctx, case):
 # ---------------------------------------------------------------------------------------------
 # (d) point cloud -> dotprops
 # ---------------------------------------------------------------------------------------------
-def sym_eigs_other(C, lam):
-    """C: 3x3 exact symmetric (Fractions); the two roots of charpoly(C)/(t - lam) as floats (descending), tr as float."""
-    tr = C[0][0] + C[1][1] + C[2][2]
-    c2 = (C[0][0] * C[1][1] - C[0][1] * C[1][0]) + (C[0][0] * C[2][2] - C[0][2] * C[2][0]) + (C[1][1] * C[2][2] - C[1][2] * C[2][1])
-    s = float(tr) - lam
-    p = float(c2) - lam * s
-    disc = max(s * s - 4 * p, 0.0)
-    r = math.sqrt(disc)
-    return (s + r) / 2, (s - r) / 2, float(tr)
+def jacobi_eigs(Cf):
+    """Eigenvalues (descending) of a symmetric 3x3 float matrix by cyclic Jacobi rotations (independent of LAPACK)."""
+    A = [list(map(float, r)) for r in Cf]
+    for _ in range(60):
+        off = abs(A[0][1]) + abs(A[0][2]) + abs(A[1][2])
+        if off <= 1e-300 or off <= 1e-18 * (abs(A[0][0]) + abs(A[1][1]) + abs(A[2][2])):
+            break
+        for p_, q_ in ((0, 1), (0, 2), (1, 2)):
+            if A[p_][q_] == 0.0:
+                continue
+            theta = (A[q_][q_] - A[p_][p_]) / (2 * A[p_][q_])
+            t = (1.0 if theta >= 0 else -1.0) / (abs(theta) + math.sqrt(theta * theta + 1))
+            c = 1 / math.sqrt(t * t + 1)
+            sn = t * c
+            for k_ in range(3):          # A <- A J
+                akp, akq = A[k_][p_], A[k_][q_]
+                A[k_][p_], A[k_][q_] = c * akp - sn * akq, sn * akp + c * akq
+            for k_ in range(3):          # A <- J^T A
+                apk, aqk = A[p_][k_], A[q_][k_]
+                A[p_][k_], A[q_][k_] = c * apk - sn * aqk, sn * apk + c * aqk
+    return sorted((A[0][0], A[1][1], A[2][2]), reverse=True)
 
 
 def exact_inertia(nb):
@@ -438,14 +451,14 @@ def check_tangents(ctx, case, pts, k_used, vect, alpha, what):
         v = vect[i]
         lam = float(v @ Cf @ v) / float(v @ v)
         res = float(np.linalg.norm(Cf @ v - lam * v)) / trf
-        s2, s3, _ = sym_eigs_other(C, lam)
-        gap = (lam - s2) / trf
+        e1, e2, e3 = jacobi_eigs(Cf)
+        gap = (e1 - e2) / trf
         if not (a == a) or a < -1e-12 or a > 1 + 1e-12:
             bad_range.append((i, a))
-        if res > 1e-8 or lam < s2 - 1e-8 * trf:
+        if res > 1e-8 or lam < e1 - 1e-8 * trf:
             bad_axis.append((i, res, gap))
-        elif abs(a - (lam - s2) / trf) > 1e-8:
-            bad_alpha.append((i, a, (lam - s2) / trf))
+        elif abs(a - (e1 - e2) / (e1 + e2 + e3)) > 1e-8:
+            bad_alpha.append((i, a, (e1 - e2) / (e1 + e2 + e3)))
         checked += 1
         if ana and gap > 1e-6:
             analytic_check(i, v, a)
@@ -542,8 +555,18 @@ def case_tube(ctx, case):
     P = x.nodes[['x', 'y', 'z']].values.astype(float)
     R = x.nodes.radius.values.astype(float)
     scale = 1 + np.abs(P).max()
-    ctx.oracle(len(vm) == len(V) and vm.min() >= 0 and vm.max() < len(P), 'vertex_map does not map every vertex to a node index', case)
-    if len(vm) != len(V):
+    has_child = {r_['parent'] for r_ in rows}
+    iso = [i for i, r_ in enumerate(rows) if r_['parent'] < 0 and r_['id'] not in has_child]
+    ctx.count('tube_isolated_nodes', min(len(iso), 3))
+    if iso:
+        ok_iso = len(vm) == len(V) and all((vm == i).any() for i in iso)
+        ctx.oracle(ok_iso, f'single-node fragment(s) (node index {iso[:4]}) get no tube geometry, yet vertex_map has {len(vm)} entries for '
+                           f'{len(V)} vertices: the mesh does not contain these nodes and vertex_map no longer lines up with the vertices',
+                   case, signature=SIG_ISO)
+        if not ok_iso:
+            return
+    ctx.oracle(len(vm) == len(V) and len(V) > 0 and vm.min() >= 0 and vm.max() < len(P), 'vertex_map does not map every vertex to a node index', case)
+    if len(vm) != len(V) or len(V) == 0:
         return
     tp = case['tube_points']
     missing, off_centre = [], []
@@ -766,7 +789,8 @@ def gen_dots(r, big=False):
         e1 = [nv[1], -nv[0], 0] if (nv[0] or nv[1]) else [1, 0, 0]
         e2 = [nv[1] * e1[2] - nv[2] * e1[1], nv[2] * e1[0] - nv[0] * e1[2], nv[0] * e1[1] - nv[1] * e1[0]]
         n = r.randint(4, 14)
-        pts = [[shift[a] + sc * (Fr(r.randint(-40, 40), 8) * e1[a] + Fr(r.randint(-40, 40), 8) * e2[a]) for a in range(3)] for _ in range(n)]
+        co = [(Fr(r.randint(-40, 40), 8), Fr(r.randint(-40, 40), 8)) for _ in range(n)]
+        pts = [[shift[a] + sc * (ca * e1[a] + cb * e2[a]) for a in range(3)] for ca, cb in co]
         k = r.choice([3, 4, 5, n, 20])
         ana = {'kind': 'normal', 'n': [int(c) for c in nv], 'any_k': True}
     elif cloud == 'sym':
@@ -830,13 +854,21 @@ def gen_dots(r, big=False):
     if ana:
         case['analytic'] = ana
     if r.random() < 0.4:
-        case['k2'] = r.choice([2, 3, 5, len(pts), len(pts) + 2])
+        case['k2'] = max(2, r.choice([2, 3, 5, len(pts), len(pts) + 2]))
     return case
 
 
+def _no_isolated(rows):
+    has_child = {x['parent'] for x in rows}
+    return all(x['parent'] >= 0 or x['id'] in has_child for x in rows)
+
+
 def gen_tube(r):
-    rows, meta = G.rand_forest(r, allow_zero_edges=False, nmax=14, labeling=r.choice(['seq', 'shuffled', 'sparse']),
-                               shape=r.choice(['chain', 'star', 'caterpillar', 'broom', 'balanced', 'random', 'forest', 'broot']))
+    while True:
+        rows, meta = G.rand_forest(r, n=r.randint(2, 14), allow_zero_edges=False, labeling=r.choice(['seq', 'shuffled', 'sparse']),
+                                   shape=r.choice(['chain', 'star', 'caterpillar', 'broom', 'balanced', 'random', 'forest', 'broot']))
+        if _no_isolated(rows) or r.random() < 0.5:
+            break
     rows = [dict(id=int(x['id']), parent=int(x['parent']), x=int(x['x']), y=int(x['y']), z=int(x['z'])) for x in rows]
     radii = [r.choice([0.125, 0.25, 0.5, 0.5]) for _ in rows]
     return {'rows': rows, 'radii': radii, 'tube_points': r.choice([4, 6, 8, 8]), 'use_normals': r.random() < 0.7,
@@ -853,8 +885,8 @@ def gen_vmesh(r):
 def gen_skel(r):
     kind = r.choice(['tube', 'tube', 'cylinder', 'capsule', 'box'])
     if kind == 'tube':
-        rows, _ = G.rand_forest(r, allow_zero_edges=False, nmax=10, labeling='seq', shape=r.choice(['chain', 'caterpillar', 'random', 'broom']),
-                                order='parent_first')
+        rows, _ = G.rand_forest(r, n=r.randint(2, 10), allow_zero_edges=False, labeling='seq',
+                                shape=r.choice(['chain', 'caterpillar', 'random', 'broom']), order='parent_first')
         rows = [dict(id=int(x['id']), parent=int(x['parent']), x=int(x['x']), y=int(x['y']), z=int(x['z'])) for x in rows]
         src = {'kind': 'tube', 'rows': rows, 'radii': [r.choice([0.25, 0.5]) for _ in rows]}
     elif kind == 'cylinder':
